@@ -1,8 +1,104 @@
+/-
+  C16 — text members keep their characters, styles and fonts.
+  Statements only; proofs call the lemmas of DrxProofs/Text.lean.
+  Models: Drx/Stxt.lean, Drx/Fmap.lean.  Spec objects, encoders, meaning: Drx/TextSpec.lean.
+-/
 import Drx.Stxt
 import Drx.Fmap
 import Drx.TextSpec
+import Drx.Codec
 import DrxProofs.Py
+import DrxProofs.Text
 namespace Drx.C16
 open Drx Drx.Fmap Drx.Stxt Drx.TextSpec
+
+/-! ## styled text -/
+
+/-- well-formed styled-text chunk: sizes fit their 32/16-bit fields -/
+def StxtValid (gap text : Bytes) (fds : Int) (runs : List RunSpec) : Prop :=
+  12 + gap.length + text.length < 2147483648 ∧ s32 fds ∧ runs.length < 32768 ∧ ∀ r ∈ runs, r.valid
+instance (gap text : Bytes) (fds : Int) (runs : List RunSpec) : Decidable (StxtValid gap text fds runs) := by
+  unfold StxtValid; infer_instance
+
+/-- For ANY decoding function, ANY text bytes, ANY number of style records with ANY field values (including the skipped
+    ones), ANY font map: the text is the stored bytes read by the decoder (its failure is the only failure) and run i
+    reports the stored start, size, the three flag bits, `#RRGGBB` of the three high colour bytes, and the family
+    the font-map lookup of the spec gives (last entry with that id, or `unknown_<id>`). -/
+theorem stxt_roundtrip (dec : Dec) (fm : List FontInfo) (gap text : Bytes) (fds : Int) (runs : List RunSpec) (tail : Bytes)
+    (h : StxtValid gap text fds runs) :
+    parseStxt dec fm (encStxt gap text fds runs tail) = (dec text).bind fun t => .ok ⟨t, runs.map (RunSpec.meaning fm)⟩ :=
+  parseStxt_encStxt dec fm gap text fds runs tail h.1 h.2.1 h.2.2.1 h.2.2.2
+
+/-- instance: the configured codecs (tables generated from CPython; strict UTF-8) -/
+theorem stxt_roundtrip_codec (c : Codec) (fm : List FontInfo) (gap text : Bytes) (fds : Int) (runs : List RunSpec) (tail : Bytes)
+    (h : StxtValid gap text fds runs) :
+    parseStxt (decodeText c) fm (encStxt gap text fds runs tail)
+      = (decodeText c text).bind fun t => .ok ⟨t, runs.map (RunSpec.meaning fm)⟩ :=
+  stxt_roundtrip _ fm gap text fds runs tail h
+
+/-- the code's lookup loop (`for font in fontmap: if font['id'] == id: …`) is the spec lookup -/
+theorem font_lookup (fm : List FontInfo) (id : Int) : fontFamily fm id = specFont fm id := fontFamily_eq_specFont fm id
+
+/-- a run whose id is not in the map gets the explicit marker; one whose id is there exactly once gets that entry's name -/
+theorem font_lookup_missing (fm : List FontInfo) (id : Int) (h : ∀ f ∈ fm, f.id ≠ id) :
+    fontFamily fm id = "unknown_".toList ++ intStr id := by
+  rw [fontFamily_eq_specFont]
+  unfold specFont
+  have : fm.filter (fun f => decide (f.id = id)) = [] := by
+    rw [List.filter_eq_nil_iff]; intro f hf; simp [h f hf]
+  simp [this]
+
+theorem font_lookup_unique (pre post : List FontInfo) (f : FontInfo)
+    (h1 : ∀ g ∈ pre, g.id ≠ f.id) (h2 : ∀ g ∈ post, g.id ≠ f.id) :
+    fontFamily (pre ++ f :: post) f.id = f.name := by
+  rw [fontFamily_eq_specFont]
+  unfold specFont
+  have a : pre.filter (fun g => decide (g.id = f.id)) = [] := by
+    rw [List.filter_eq_nil_iff]; intro g hg; simp [h1 g hg]
+  have b : post.filter (fun g => decide (g.id = f.id)) = [] := by
+    rw [List.filter_eq_nil_iff]; intro g hg; simp [h2 g hg]
+  simp [List.filter_append, a, b]
+
+example : StxtValid [0xAA] [0x63, 0x61, 0x66, 0x8E]
+    4 [⟨0, 0, 12, 9, 3, 5, 0, 12, 255, 1, 128, 2, 0, 3⟩, ⟨-1, 2, 0, 0, -7, 2, 9, 24, 0, 0, 0, 0, 0, 0⟩] := by decide
+
+example : (⟨0, 0, 12, 9, 3, 5, 0, 12, 255, 1, 128, 2, 0, 3⟩ : RunSpec).meaning [⟨"Arial".toList, 3⟩]
+    = ⟨"#FF8000".toList, 0, true, false, true, 12, "Arial".toList⟩ := by decide
+
+/-! ## font map -/
+
+def FmapValid (h : FmapHdr) (fonts : List FontSpec) (unused : List SlotSpec) (htail bpre btail : Bytes) : Prop :=
+  h.valid ∧ (∀ f ∈ fonts, f.valid) ∧ FontsFit fonts bpre.length ∧ (∀ s ∈ unused, s.valid) ∧
+  fonts.length + unused.length < 2147483648 ∧ (encFmapHeader h fonts unused bpre htail).length < 2147483648 ∧
+  (bpre ++ (encFontNames fonts ++ btail)).length < 2147483648
+instance (h : FmapHdr) (fonts : List FontSpec) (unused : List SlotSpec) (htail bpre btail : Bytes) :
+    Decidable (FmapValid h fonts unused htail bpre btail) := by unfold FmapValid; infer_instance
+
+/-- For ANY decoding function, ANY number of used fonts with ANY ids and name bytes (and padding), ANY unused capacity
+    slots with ANY contents, ANY ignored header words: the font map decodes to exactly its (id, name) pairs in order. -/
+theorem fmap_roundtrip (dec : Dec) (h : FmapHdr) (fonts : List FontSpec) (unused : List SlotSpec) (htail bpre btail : Bytes)
+    (hv : FmapValid h fonts unused htail bpre btail) :
+    parseFmap dec (encFmap h fonts unused htail bpre btail) = decodeFonts dec fonts :=
+  parseFmap_encFmap dec h fonts unused htail bpre btail hv.1 hv.2.1 hv.2.2.1 hv.2.2.2.1 hv.2.2.2.2.1 hv.2.2.2.2.2.1 hv.2.2.2.2.2.2
+
+theorem fmap_roundtrip_codec (c : Codec) (h : FmapHdr) (fonts : List FontSpec) (unused : List SlotSpec) (htail bpre btail : Bytes)
+    (hv : FmapValid h fonts unused htail bpre btail) :
+    parseFmap (decodeText c) (encFmap h fonts unused htail bpre btail) = decodeFonts (decodeText c) fonts :=
+  fmap_roundtrip _ h fonts unused htail bpre btail hv
+
+/-- the decoded map followed by the text decoder (what stxt2json does): the family of a run is the name stored in the
+    font-map chunk under the run's id -/
+theorem pipeline (dec : Dec) (h : FmapHdr) (fonts : List FontSpec) (unused : List SlotSpec) (htail bpre btail : Bytes)
+    (gap text : Bytes) (fds : Int) (runs : List RunSpec) (tail : Bytes)
+    (hv : FmapValid h fonts unused htail bpre btail) (hs : StxtValid gap text fds runs) :
+    ((parseFmap dec (encFmap h fonts unused htail bpre btail)).bind fun fm => parseStxt dec fm (encStxt gap text fds runs tail))
+      = (decodeFonts dec fonts).bind fun fm => (dec text).bind fun t => .ok ⟨t, runs.map (RunSpec.meaning fm)⟩ := by
+  rw [fmap_roundtrip dec h fonts unused htail bpre btail hv]
+  congr 1
+  funext fm
+  exact stxt_roundtrip dec fm gap text fds runs tail hs
+
+example : FmapValid ⟨0, 0, 0, 0, 28, 8, 1, 2, 3, 4⟩ [⟨3, 0, [0x41, 0x72, 0x69, 0x61, 0x6C], [0]⟩, ⟨-2, 7, [], []⟩]
+    [⟨-1, 0, 99⟩] [] (List.replicate 18 0) [1] := by decide
 
 end Drx.C16
